@@ -656,26 +656,72 @@ theorem heaviside_counterexample :
 
 /-! ### in-place / `out=` results with a coefficient -/
 
-/-- **out= fix-up.**  (Full statement; it failed before fix 8405e15, when the fix-up re-entered
-    the dispatcher with the out array's stale unit: `x = unyt_array([1, 2], 'km/m'); x *= 2`
-    recursed without end.)  The fix-up always terminates and multiplies the buffer by exactly the
-    coefficient. -/
-theorem out_fixup_total (pre : Prefixes K) (t : Lut K) (old : UnitV K) (mul : K) :
-    outFixup pre t old mul = .ok (some mul) := by
-  simp only [outFixup]
+/-- **out= fix-up on the raw buffer terminates** at once, whatever the out array's old unit, and
+    multiplies the data by exactly the coefficient -/
+theorem fixup_raw_terminates (pre : Prefixes K) (t : Lut K) (old : UnitV K) (fuel : Nat) (mul : K) :
+    fixupLoop false pre t old (fuel + 1) mul = .ok (some mul) := by
+  simp only [fixupLoop]
   split
   · rename_i h; rw [eq_of_beq h]
-  · rfl
+  · simp
+
+/-- **the re-entrant fix-up diverges** exactly in the situation of the repaired defect: the
+    coefficient is not 1 and the out array's own (stale) unit, multiplied by a bare number, yields a
+    coefficient that is not 1 either — then no amount of fuel suffices (Python: RecursionError) -/
+theorem fixup_reentrant_diverges (pre : Prefixes K) (t : Lut K) (old : UnitV K) (m' : K) (u' : UnitV K)
+    (hm : multiplyUnits pre t old UnitV.dimensionless = .ok (m', u')) (hm1 : m' ≠ 1) :
+    ∀ (fuel : Nat) (mul : K), mul ≠ 1 → fixupLoop true pre t old fuel mul = .ok none := by
+  intro fuel
+  induction fuel with
+  | zero => intro mul _; rfl
+  | succ n ih =>
+    intro mul hmul
+    have e1 : (mul == 1) = false := by simpa using hmul
+    simp only [fixupLoop, e1, hm, ih m' hm1]
+    simp
+
+/-- non-vacuity of the divergence hypothesis: the unit `km/m` times a bare number simplifies to the
+    coefficient 1000 (over ℚ, two-row table) — the array of `x = unyt_array([1, 2], 'km/m'); x *= 2` -/
+example : (match multiplyUnits (K := Rat) [] kmLut ⟨⟨1, [("km", 1), ("m", -1)]⟩, 1000, 0, Dim.one, true⟩ UnitV.dimensionless with
+    | .ok (m, _) => some m | .error _ => none) = some 1000 := by decide +kernel
+
+/-- **out= fix-up of the code as it is** (the buffer multiplied is read off the source on every run,
+    `Generated.C04.fixupReenters`; since fix 8405e15 it is the raw view): it terminates and scales
+    the data by exactly the coefficient.  Re-introducing `multiply(out, mul, out=out)` flips the
+    regenerated flag and this obligation no longer checks. -/
+theorem out_fixup_total (pre : Prefixes K) (t : Lut K) (old : UnitV K) (mul : K) :
+    outFixup pre t old mul = .ok (some mul) := by
+  have hflag : Generated.C04.fixupReenters = false := by decide
+  simp only [outFixup, hflag]
+  exact fixup_raw_terminates pre t old 63 mul
 
 /-! ### reductions of multiply / divide: how many factors -/
 
-/-- **reduce count.**  (Full statement; it failed before the `_apply_power_mapping` fix, when a
-    missing `axis` keyword was read as "the whole array": a 3×3 array in km gave km⁹.)  The power
-    the unit is raised to counts exactly the numbers NumPy combines into each result: along the
-    given axis, along axis 0 when none is given, over everything for `axis=None`. -/
-theorem reduce_count_matches_ref (shape : List Nat) (axisKw : AxisKw) :
+/-- **reduce count.**  (It failed before the `_apply_power_mapping` fix, when a missing `axis`
+    keyword was read as "the whole array": a 3×3 array in km gave km⁹.)  The power the unit is
+    raised to (`reduceCount`: `in_shape[axis]`, axis defaulting to 0, `in_size` for `axis=None`) is
+    the number of elements NumPy combines into each element of the result — the size of the input
+    divided by the size of the result, whose shape is the input's with the reduced axis removed
+    (`Ref.reduceCountRef`, over the shape algebra) — for every array without an empty dimension and
+    every axis it has. -/
+theorem reduce_count_matches_ref (shape : Shape) (axisKw : AxisKw) (hpos : ∀ d ∈ shape, 0 < d)
+    (hax : match axisKw with | .absent => 0 < shape.length | .idx a => a < shape.length | .none => True) :
     reduceCount shape axisKw = reduceCountRef shape axisKw := by
-  cases axisKw <;> rfl
+  have epos : ∀ a, 0 < Shape.size (shape.eraseIdx a) := fun a =>
+    size_pos_of_all_pos _ fun d hd => hpos d (List.mem_of_mem_eraseIdx hd)
+  cases axisKw with
+  | absent =>
+    simp only [reduceCount, reduceCountRef, reduceResultShape]
+    rw [size_eq_getD_mul_eraseIdx shape 0 hax, Nat.mul_div_cancel _ (epos 0)]
+  | idx a =>
+    simp only [reduceCount, reduceCountRef, reduceResultShape]
+    rw [size_eq_getD_mul_eraseIdx shape a hax, Nat.mul_div_cancel _ (epos a)]
+  | none =>
+    simp only [reduceCount, reduceCountRef, reduceResultShape, Shape.size, Nat.div_one]
+    rw [foldl_mul_eq_size]; simp
+
+example : reduceCount [3, 3] .absent = 3 ∧ reduceCountRef [3, 3] .absent = 3 ∧ reduceCountRef [2, 3, 4] (.idx 1) = 3
+    ∧ reduceCountRef [2, 3, 4] .none = 24 := by decide
 
 /-- the live `_apply_power_mapping`, probed on 2-D and 3-D shapes with and without an axis
     keyword, counts what the model counts -/
